@@ -22,9 +22,18 @@ import (
 //                                                        its own context) and compare with sequential results;
 //                                                        the answer for goroutine 0's context is the `expr` answer
 
+// set by c17spec.go (build tag c17 only): specification-level ops and their generator
+var c17Extra func(f []string) (string, bool)
+var c17ExtraGen func(r *Rand, tier string) []string
+
 func c17Run(f []string) string {
 	if s, ok := exprRun(f); ok {
 		return canonPanic(s)
+	}
+	if c17Extra != nil {
+		if s, ok := c17Extra(f); ok {
+			return s
+		}
 	}
 	switch f[0] {
 	case "splitter":
@@ -517,6 +526,9 @@ func c17GenCases(r *Rand, tier string) []string {
 	for i, t := range infs {
 		out = append(out, ExprCase(i%2 == 0, t, []string{"q"}, []string{"k", "yes"}))
 	}
+	if c17ExtraGen != nil {
+		out = append(out, c17ExtraGen(r, tier)...)
+	}
 	if tier == "thorough" {
 		out = append(out, c17Exhaustive()...)
 	}
@@ -604,6 +616,13 @@ func c17Stats(cases []string) map[string]int {
 			st["conc.goroutines."+f[1]]++
 		case "splitter":
 			st[fmt.Sprintf("splitter.delimLen.%d", len(UnHex(f[2])))]++
+			continue
+		case "wf":
+			t = string(UnHex(f[2]))
+		case "spec":
+			st["spec."+f[1]]++
+			continue
+		default:
 			continue
 		}
 		for _, fn := range []string{"@len", "@split", "@join", "@select", "@slice", "@map", "@filter", "@reduce", "@in", "@range", "@for", "{@ ", "{$ "} {
